@@ -26,9 +26,71 @@ import YtkModel.Generated.Constants
 import YtkProofs.Patch
 import YtkProofs.HeapPatch
 import YtkProofs.HeapPatchAbs
+import YtkProofs.Decisions
 
 namespace Ytk.C09
 open Ytk.Ptr Ytk.Patch
+
+/-! ## decision tables regenerated from the source (extract/tables.go) -/
+section DecisionTables
+open Ytk.TableT
+
+/-- the leading guards the source gives a handler function (regenerated `patchRequires`) -/
+def guardsOfG (handler : String) : List Guard := (Generated.patchRequires.lookup handler).getD []
+
+/-- (i) The `switch obj.Op` of patch.Do as regenerated from patch/patch.go IS the dispatch table of the
+    model: same operation names, same handler for each, error when no case matches; and `patchDo`
+    equals the function that looks the operation up in that table and runs the handler. -/
+theorem patch_dispatch_table_matches_model :
+    pairs Generated.patchDispatch = Patch.dispatchTable.map (fun p => (p.1, p.2.goName)) ∧
+    Generated.patchDispatchDefault = "error" ∧
+    (∀ o root, patchDo o root =
+      match o.path with
+      | none => (root, .err)
+      | some path =>
+        match Patch.dispatchTable.lookup o.op with
+        | some h => h.run o path root
+        | none => (root, .err)) :=
+  ⟨by decide +kernel, by decide +kernel, patchDo_eq_table⟩
+
+/-- (i) The validation of the operation object, regenerated: the guards before the dispatch (object,
+    path, target — in this order) and the leading `value` / `from` guards of every handler are the ones
+    the model has; and the model's handlers do fail, leaving the document alone, exactly there. -/
+theorem patch_requires_table_matches_model :
+    Generated.patchPreChecks = Patch.preChecks ∧
+    Generated.patchRequires = Handler.all.map (fun h => (h.goName, h.guards)) ∧
+    (∀ o root, o.path = none → patchDo o root = (root, .err)) ∧
+    (∀ (h : Handler) o p r, h.needsValue = true → o.value = none → h.run o p r = (r, .err)) ∧
+    (∀ (h : Handler) o p r, h.needsFrom = true → o.frm = none → h.run o p r = (r, .err)) :=
+  ⟨by decide +kernel, by decide +kernel, patchDo_missing_path, run_missing_value, run_missing_from⟩
+
+/-- (ii) RFC 6902 on the regenerated tables: exactly the six operations of section 4 are dispatched,
+    each to its own handler; `add`, `replace`, `test` — and only they — start by requiring `value`;
+    `move`, `copy` — and only they — start by requiring `from`; the path is required before anything is
+    dispatched; an unknown operation is an error; every guard returns one of the package's (non-nil)
+    error variables. -/
+theorem patch_table_rule :
+    keys Generated.patchDispatch = ["add", "copy", "move", "remove", "replace", "test"] ∧
+    (∀ r ∈ Generated.patchDispatch,
+      (⟨"arg0.Value", "ErrOoValueMissing"⟩ ∈ guardsOfG r.target ↔ r.key ∈ ["add", "replace", "test"]) ∧
+      (⟨"arg0.From", "ErrOoFromMissing"⟩ ∈ guardsOfG r.target ↔ r.key ∈ ["move", "copy"])) ∧
+    ⟨"arg0.Path", "ErrOoPathMissing"⟩ ∈ Generated.patchPreChecks ∧
+    Generated.patchDispatchDefault = "error" ∧
+    (∀ g ∈ Generated.patchPreChecks ++ (Generated.patchRequires.map (·.2)).flatten,
+      g.result ∈ Generated.patchErrors.map (·.1)) ∧
+    (∀ r ∈ Generated.patchDispatch, Generated.const? ("patch." ++ r.const) = some r.key) := by
+  decide +kernel
+
+/-- (iii) the tables are not empty and their keys are distinct: six cases, six different handlers, one
+    guard list per handler -/
+theorem nonvacuous_patch_tables :
+    Generated.patchDispatch.length = 6 ∧ (keys Generated.patchDispatch).Nodup ∧
+    (Generated.patchDispatch.map (·.target)).Nodup ∧
+    Generated.patchRequires.map (·.1) = Generated.patchDispatch.map (·.target) ∧
+    (Generated.patchErrors.map (·.1)).Nodup ∧ Generated.patchPreChecks.length = 3 := by
+  decide +kernel
+
+end DecisionTables
 
 /-- Success/failure agree with the RFC, the resulting document is the RFC's, and on failure
     the document is exactly the old one. -/
